@@ -1,26 +1,26 @@
 (* C28 - The B-tree behaves as an ordered map.  Property theorems only.
    Model: Model/BTree.v - abstract-node model of src/btree/{tree,leaf,interior}.rs AS REPAIRED by commits
-   8f0490a a847df1 0e115d7 9c96190 09348e1 a0471f9 (byte-size decisions, split points, hint fast paths, cursor
+   8f0490a a847df1 0e115d7 9c96190 09348e1 a0471f9 691ce2c (byte-size decisions, split points, hint fast paths, cursor
    algorithms of the code as it is).  Spec: Model/BTreeSpec.v (`spec_check`: what an ordered map may return,
    also evaluated by Corr/C28.v on the real results).  Invariant: Model/BTreeInv.v.
    What the ordered map says about refusals: an insert of an absent key may return Err and leave the map
    unchanged ONLY when an entry of more than half a page is involved (`refusal_ok`); otherwise it must succeed.
-   `run s ops` gives, per operation, the result and an outcome code; the only code that still occurs from a
-   well-formed tree is F_ZSEP (finding F-C28-8, see zero_separator_refuted). *)
+   `run s ops` gives, per operation, the result and an outcome code; from a well-formed tree every code is 0
+   (all error branches of the model are proved unreachable): the theorems carry no exception class. *)
 From Coq Require Import ZArith List Bool.
 From TV Require Import Lib.MachInt Gen.Varint Model.BTree Model.BTreeSpec Model.BTreeInv Model.BTreeWitness
   Proof.BTreeMain Proof.BTreeRefute.
 Import ListNotations.
 Open Scope Z_scope.
 
-(* every history (any operations, keys, value lengths, hints) from any well-formed tree: unless the
-   zero-separator panic occurs, every result - return values, lookups, forward / backward / seek cursor
-   enumerations - is one an ordered map returns.  No other exception class is left. *)
+(* every history (any operations, keys, value lengths, hints) from any well-formed tree: every result - return
+   values, lookups, forward / backward / seek cursor enumerations - is one an ordered map returns.  No
+   exception class, no hypothesis about outcome codes. *)
 Theorem btree_refines_omap :
   forall (V : Type) (vlen : V -> Z) (veqb : V -> V -> bool),
     (forall v, 0 <= vlen v) -> (forall v, veqb v v = true) ->
     forall (ops : list (op V)) (s : state V),
-      Inv V vlen s -> no_zsep V (fst (run V vlen s ops)) = true ->
+      Inv V vlen s ->
       spec_run V vlen veqb (abs_of V s) (combine ops (map fst (fst (run V vlen s ops)))) = true.
 Proof. exact run_refines_l. Qed.
 
@@ -43,18 +43,14 @@ Theorem btree_created_empty :
     Inv V vlen (init_state V rootpg np) /\ abs_of V (init_state V rootpg np) = [].
 Proof. exact init_inv. Qed.
 
-(* the surviving class: split_interior can leave an interior page without separators (two separators of more
-   than about 8 KB); the next split below it panics in builds with overflow checks.  Confirmed on the real
-   code (known_findings.d/C28.json F-C28-8). *)
-Theorem zero_separator_refuted : exists ops, refutes F_ZSEP ops.
-Proof. exists w_zsep. exact zsep_refuted_l. Qed.
-
-(* HISTORICAL: the witnesses of the seven findings fixed in /repo are handled like an ordered map by the model
-   of the repaired code (their replay lines are re-run on the real code on every check) *)
-Theorem former_witnesses_accepted :
+(* HISTORICAL: the witnesses of the eight findings fixed in /repo (F-C28-1..8; cursors at empty leaves, hint
+   fast path, growing update, oversized entry, re-inserted separator key, interior split by count, interior page
+   without separators) are regular and handled like an ordered map by the model of the repaired code; their
+   replay lines are re-run on the real code on every check *)
+Theorem former_classes_repaired :
   accepted w_fwd /\ accepted w_seek /\ accepted w_bwd /\ accepted w_hint /\ accepted w_upd /\ accepted w_leaffull
-  /\ accepted w_sepdup /\ accepted w_intfull.
-Proof. exact former_witnesses_accepted_l. Qed.
+  /\ accepted w_sepdup /\ accepted w_intfull /\ accepted w_zsep.
+Proof. exact former_classes_repaired_l. Qed.
 
 (* non-vacuity: a history with leaf splits, a root split, deletes that empty a whole leaf, updates of all three
    kinds, an append through the hint, and all three cursors is accepted to its end *)
@@ -74,7 +70,7 @@ Check btree_refines_omap :
   forall (V : Type) (vlen : V -> Z) (veqb : V -> V -> bool),
     (forall v, 0 <= vlen v) -> (forall v, veqb v v = true) ->
     forall (ops : list (op V)) (s : state V),
-      Inv V vlen s -> no_zsep V (fst (run V vlen s ops)) = true ->
+      Inv V vlen s ->
       spec_run V vlen veqb (abs_of V s) (combine ops (map fst (fst (run V vlen s ops)))) = true.
 Check btree_state_after :
   forall (V : Type) (vlen : V -> Z) (veqb : V -> V -> bool),
@@ -87,13 +83,11 @@ Check btree_state_after :
 Check btree_created_empty :
   forall (V : Type) (vlen : V -> Z) (rootpg np : Z),
     Inv V vlen (init_state V rootpg np) /\ abs_of V (init_state V rootpg np) = [].
-Check zero_separator_refuted : exists ops, refutes F_ZSEP ops.
-Check former_witnesses_accepted :
+Check former_classes_repaired :
   accepted w_fwd /\ accepted w_seek /\ accepted w_bwd /\ accepted w_hint /\ accepted w_upd /\ accepted w_leaffull
-  /\ accepted w_sepdup /\ accepted w_intfull.
+  /\ accepted w_sepdup /\ accepted w_intfull /\ accepted w_zsep.
 
 Print Assumptions btree_refines_omap.
 Print Assumptions btree_state_after.
 Print Assumptions btree_created_empty.
-Print Assumptions zero_separator_refuted.
-Print Assumptions former_witnesses_accepted.
+Print Assumptions former_classes_repaired.
